@@ -449,263 +449,17 @@ func runC02(c *Ctx) {
 	}
 
 	// sign domain shared by S6, S7 and S8: r = sign(stored round − asked round), i = sign(stored index − asked index)
-	type ri [2]int64
-	full := func() map[ri]bool {
-		m := map[ri]bool{}
-		for r := int64(-1); r <= 1; r++ {
-			for i := int64(-1); i <= 1; i++ {
-				m[ri{r, i}] = true
-			}
-		}
-		return m
-	}
-	holds := func(sign int64, op token.Token, n int64) bool {
-		switch op {
-		case token.LSS:
-			return sign < n
-		case token.LEQ:
-			return sign <= n
-		case token.GTR:
-			return sign > n
-		case token.GEQ:
-			return sign >= n
-		case token.EQL:
-			return sign == n
-		}
-		return true
-	}
-	// cut: the (r, i) combinations compatible with the path conditions of fn; nilRound: the stored round is nil
-	cut := func(fn *ssa.Function, atoms []Atom) (map[ri]bool, bool) {
-		recv := ssa.Value(fn.Params[0])
-		isRecvField := func(v ssa.Value, f *types.Var) bool {
-			lf, base := loadedField(stripConv(v))
-			return lf == f && base != nil && stripConv(base) == recv
-		}
-		isParam := func(v ssa.Value) bool {
-			p, ok := stripConv(v).(*ssa.Parameter)
-			return ok && p.Parent() == fn
-		}
-		feasible := full()
-		nilRound := false
-		for _, a := range atoms {
-			if a.Kind == "isnil" && a.Truth && isRecvField(a.X, roundF) {
-				nilRound = true
-			}
-			if a.Y == nil || (a.Kind != "eq" && a.Kind != "cmp") {
-				continue
-			}
-			op := a.Op
-			if a.Kind == "eq" {
-				op = token.EQL
-			}
-			for _, pair := range [][2]ssa.Value{{a.X, a.Y}, {a.Y, a.X}} {
-				cc, isCall := stripConv(pair[0]).(*ssa.Call)
-				if !isCall || calleeObj(cc) == nil || calleeObj(cc).Name() != "Cmp" {
-					continue
-				}
-				n, isC := constInt(pair[1])
-				if !isC {
-					continue
-				}
-				r, g := callRecv(cc), callArgs(cc)[0]
-				flip := false
-				switch {
-				case isRecvField(r, roundF) && isParam(g):
-				case isRecvField(g, roundF) && isParam(r):
-					flip = true
-				default:
-					continue
-				}
-				o := op
-				if pair[0] == a.Y { // constant on the left: mirror the operator
-					o = flipCmp(op)
-				}
-				for k := range feasible {
-					sg := k[0]
-					if flip {
-						sg = -sg
-					}
-					if holds(sg, o, n) != a.Truth {
-						delete(feasible, k)
-					}
-				}
-			}
-			var flip, isIdx bool
-			switch {
-			case isRecvField(a.X, idxF) && isParam(a.Y):
-				isIdx = true
-			case isRecvField(a.Y, idxF) && isParam(a.X):
-				isIdx, flip = true, true
-			}
-			if isIdx {
-				for k := range feasible {
-					sg := k[1]
-					if flip {
-						sg = -sg
-					}
-					if holds(sg, op, 0) != a.Truth {
-						delete(feasible, k)
-					}
-				}
-			}
-		}
-		return feasible, nilRound
-	}
-	older := func(k ri) bool { return k[0] > 0 || (k[0] == 0 && k[1] > 0) }
+	cut := newCtxCut(w)
 
 	// ------------------------------------------------------------ S7
 	c.Rule("C02.S7", "GATE", "the vote marks are wiped only when the (round, round index) they describe really changes: in every method of VoteDB each reset of the mark table is reached only on paths that established that the stored round is nil or differs from the new round, or that the stored round index differs from the new one — a reset for the SAME context (e.g. the first context event after a restart) forgets the replayed records and the validator votes again")
 	c.Min(2)
-	{
-		nReset := 0
-		for _, fn := range w.FuncsIn(uconPkg) {
-			if fn.Blocks == nil || fn.Signature.Recv() == nil || ownerName(fn.Signature.Recv().Type()) != "VoteDB" || strings.HasSuffix(w.fileOf(fn.Pos()), "_test.go") {
-				continue
-			}
-			if fn == findVoteRestore(newDB) {
-				continue // the replay of persisted records has its own decision table (S4)
-			}
-			k := 0
-			for _, fw := range fieldWrites(fn) {
-				if fw.Field != markF || fw.Kind != "store" || isLocalAlloc(fw.Base) {
-					continue
-				}
-				nReset++
-				c.sawFunc(fname(fn))
-				nPaths, bad := 0, 0
-				okEnum := pathsBetween(fn, fn.Blocks[0], fw.Instr.Block(), 4096, func(blocks []*ssa.BasicBlock, facts []Fact) {
-					atoms := atomsOf(facts)
-					if contradictoryAtoms(atoms) {
-						return
-					}
-					nPaths++
-					f, nilRound := cut(fn, atoms)
-					differs := nilRound || !f[ri{0, 0}]
-					if !differs {
-						bad++
-					}
-				})
-				c.sites += nPaths
-				cons := fmt.Sprintf("%s#marks-wiped-only-on-a-new-context-%d", fname(fn), k)
-				k++
-				if !okEnum {
-					c.Undecided(cons, fw.Instr.Pos(), "paths to the reset could not be enumerated")
-					continue
-				}
-				c.Check(cons, fw.Instr.Pos(), bad == 0 && nPaths > 0, ifelse(bad == 0 && nPaths > 0, fmt.Sprintf("all %d paths to the reset established a different round or round index", nPaths), fmt.Sprintf("%d of %d paths wipe the vote marks without having established that round or round index changed: a context event for the context the marks already describe — the first one after a restart — forgets the votes already cast", bad, nPaths)))
-			}
-		}
-		if nReset == 0 {
-			c.Undecided("consensus/ucon.VoteDB#mark-resets", token.NoPos, "no reset of VoteDB.mark found in the methods of VoteDB")
-		}
-	}
+	c02S7(c, w, cut)
 
 	// ------------------------------------------------------------ S8
 	c.Rule("C02.S8", "GATE", "the (round, round index) the vote marks describe never moves backwards: with r = sign(stored round − new round) and i = sign(stored index − new index), every method of VoteDB stores a new round / round index, or wipes the marks, only on paths on which the stored round is nil or the new context is not older ((r<0) or (r=0 and i≤0)); alreadyVoted answers false only for such contexts, so a path that passed alreadyVoted == false inherits that. The engine starts every round at index 1 — also after a restart in the middle of a round — and the single record per vote kind has been overwritten by then: only the refusal to go back keeps the validator from signing index 1 twice")
 	c.Min(4)
-	{
-		av := w.Fn(uconPkg, "VoteDB", "alreadyVoted")
-		// (a) alreadyVoted: where can it answer false?
-		avFalse := map[ri]bool{}
-		okAV := enumPaths(av, 4096, func(pr PathResult) {
-			rv := pr.Resolve(pr.Ret.Results[0])
-			facts := pr.Facts
-			if cv, isC := rv.(*ssa.Const); isC && cv.Value != nil && cv.Value.Kind() == constant.Bool {
-				if constant.BoolVal(cv.Value) {
-					return
-				}
-			} else {
-				facts = append(append([]Fact(nil), facts...), Fact{Cond: rv, Truth: false})
-			}
-			atoms := atomsOf(facts)
-			if contradictoryAtoms(atoms) {
-				return
-			}
-			f, nilRound := cut(av, atoms)
-			if nilRound {
-				return
-			}
-			for k := range f {
-				avFalse[k] = true
-			}
-		})
-		c.sites++
-		if !okAV {
-			c.Undecided(fname(av)+"#refuses-older-contexts", av.Pos(), "the paths of alreadyVoted could not be enumerated")
-		} else {
-			bad := ""
-			for k := range avFalse {
-				if older(k) {
-					bad = fmt.Sprintf("stored round %s, stored index %s the asked one", map[int64]string{-1: "older than", 0: "equal to", 1: "newer than"}[k[0]], map[int64]string{-1: "older than", 0: "equal to", 1: "newer than"}[k[1]])
-				}
-			}
-			c.Check(fname(av)+"#refuses-older-contexts", av.Pos(), bad == "", ifelse(bad == "", "alreadyVoted answers false only for the stored context or a newer one", "alreadyVoted can answer false for a context older than the stored one ("+bad+"): a vote for a round or index the validator has already left is signed again, and the record of the earlier vote there has been overwritten"))
-		}
-		// (b) writers of the context
-		avObj := av.Object().(*types.Func)
-		nW := 0
-		for _, fn := range w.FuncsIn(uconPkg) {
-			if fn.Blocks == nil || fn.Signature.Recv() == nil || ownerName(fn.Signature.Recv().Type()) != "VoteDB" || strings.HasSuffix(w.fileOf(fn.Pos()), "_test.go") {
-				continue
-			}
-			if fn == findVoteRestore(newDB) {
-				continue // the replay of persisted records has its own decision table (S4)
-			}
-			k := 0
-			for _, fw := range fieldWrites(fn) {
-				if isLocalAlloc(fw.Base) || !(fw.Field == roundF || fw.Field == idxF || (fw.Field == markF && fw.Kind == "store")) {
-					continue
-				}
-				nW++
-				c.sawFunc(fname(fn))
-				nPaths, bad := 0, 0
-				okEnum := pathsBetween(fn, fn.Blocks[0], fw.Instr.Block(), 4096, func(blocks []*ssa.BasicBlock, facts []Fact) {
-					atoms := atomsOf(facts)
-					if contradictoryAtoms(atoms) {
-						return
-					}
-					f, nilRound := cut(fn, atoms)
-					if nilRound {
-						nPaths++
-						return
-					}
-					// a passed alreadyVoted(…) == false on the function's own round and index
-					for _, a := range atoms {
-						if a.Kind == "true" && !a.Truth {
-							if cc, isCall := stripConv(a.X).(*ssa.Call); isCall && sameFunc(calleeObj(cc), avObj) && okAV {
-								for k := range f {
-									if !avFalse[k] {
-										delete(f, k)
-									}
-								}
-							}
-						}
-					}
-					if len(f) == 0 {
-						return
-					}
-					nPaths++
-					for k := range f {
-						if older(k) {
-							bad++
-							return
-						}
-					}
-				})
-				c.sites += nPaths
-				cons := fmt.Sprintf("%s#%s-never-moves-back-%d", fname(fn), fw.Field.Name(), k)
-				k++
-				if !okEnum {
-					c.Undecided(cons, fw.Instr.Pos(), "paths to the write could not be enumerated")
-					continue
-				}
-				c.Check(cons, fw.Instr.Pos(), bad == 0 && nPaths > 0, ifelse(bad == 0 && nPaths > 0, fmt.Sprintf("all %d paths to the write have a nil stored round or a context that is not older", nPaths), fmt.Sprintf("%d of %d paths replace the stored (round, index) — or wipe its marks — by an OLDER context: after a restart in the middle of a round the engine announces index 1 again, the marks of the later index are dropped and the validator signs index 1 a second time", bad, nPaths)))
-			}
-		}
-		if nW == 0 {
-			c.Undecided("consensus/ucon.VoteDB#context-writes", token.NoPos, "no write of VoteDB.round / roundIndex / mark found in the methods of VoteDB")
-		}
-	}
+	c02S8(c, w, cut)
 
 	// ------------------------------------------------------------ S6
 	c.Rule("C02.S6", "EXHAUSTIVE", "alreadyVoted caps every vote kind that can be cast: for each kind K handed to vote, every way alreadyVoted can answer false for a record of the stored round and round index has established that mark[K] is below the cap (1; 2 for NextIndex) — a kind without a bound is signed again after a restart although its record was replayed")
@@ -1091,4 +845,283 @@ func voteRestoreDecision(c *Ctx, w *World, restore *ssa.Function, roundF, idxF, 
 		}
 		c.Check("consensus/ucon.NewVoteDB$1#restore-decision-is-lexicographic", restore.Pos(), okAll, ifelse(okAll, fmt.Sprintf("%d replacing, %d ignoring and %d counting paths: newer records replace, older ones are ignored, same-context ones count", nv.replace, nv.ignore, nv.count), why+": after a restart the vote marks describe the wrong (round, index) and the validator signs a second, conflicting vote"))
 	}
+}
+
+// ri: (sign(stored round − asked round), sign(stored index − asked index)).
+type ri [2]int64
+
+type ctxCut func(fn *ssa.Function, atoms []Atom) (map[ri]bool, bool)
+
+// c02S7: the vote marks are wiped only on paths that established a different context. Shared by C02.S7 and C05.D7.
+func c02S7(c *Ctx, w *World, cut ctxCut) {
+	markF := w.Field(uconPkg, "VoteDB", "mark")
+	newDB := w.Fn(uconPkg, "", "NewVoteDB")
+	{
+		nReset := 0
+		for _, fn := range w.FuncsIn(uconPkg) {
+			if fn.Blocks == nil || fn.Signature.Recv() == nil || ownerName(fn.Signature.Recv().Type()) != "VoteDB" || strings.HasSuffix(w.fileOf(fn.Pos()), "_test.go") {
+				continue
+			}
+			if fn == findVoteRestore(newDB) {
+				continue // the replay of persisted records has its own decision table (S4)
+			}
+			k := 0
+			for _, fw := range fieldWrites(fn) {
+				if fw.Field != markF || fw.Kind != "store" || isLocalAlloc(fw.Base) {
+					continue
+				}
+				nReset++
+				c.sawFunc(fname(fn))
+				nPaths, bad := 0, 0
+				okEnum := pathsBetween(fn, fn.Blocks[0], fw.Instr.Block(), 4096, func(blocks []*ssa.BasicBlock, facts []Fact) {
+					atoms := atomsOf(facts)
+					if contradictoryAtoms(atoms) {
+						return
+					}
+					nPaths++
+					f, nilRound := cut(fn, atoms)
+					differs := nilRound || !f[ri{0, 0}]
+					if !differs {
+						bad++
+					}
+				})
+				c.sites += nPaths
+				cons := fmt.Sprintf("%s#marks-wiped-only-on-a-new-context-%d", fname(fn), k)
+				k++
+				if !okEnum {
+					c.Undecided(cons, fw.Instr.Pos(), "paths to the reset could not be enumerated")
+					continue
+				}
+				c.Check(cons, fw.Instr.Pos(), bad == 0 && nPaths > 0, ifelse(bad == 0 && nPaths > 0, fmt.Sprintf("all %d paths to the reset established a different round or round index", nPaths), fmt.Sprintf("%d of %d paths wipe the vote marks without having established that round or round index changed: a context event for the context the marks already describe — the first one after a restart — forgets the votes already cast", bad, nPaths)))
+			}
+		}
+		if nReset == 0 {
+			c.Undecided("consensus/ucon.VoteDB#mark-resets", token.NoPos, "no reset of VoteDB.mark found in the methods of VoteDB")
+		}
+	}
+
+}
+
+// c02S8: the stored context never moves backwards. Shared by C02.S8 and C05.D7.
+func c02S8(c *Ctx, w *World, cut ctxCut) {
+	markF := w.Field(uconPkg, "VoteDB", "mark")
+	roundF := w.Field(uconPkg, "VoteDB", "round")
+	idxF := w.Field(uconPkg, "VoteDB", "roundIndex")
+	newDB := w.Fn(uconPkg, "", "NewVoteDB")
+	older := func(k ri) bool { return k[0] > 0 || (k[0] == 0 && k[1] > 0) }
+	{
+		av := w.Fn(uconPkg, "VoteDB", "alreadyVoted")
+		// (a) alreadyVoted: where can it answer false?
+		avFalse := map[ri]bool{}
+		okAV := enumPaths(av, 4096, func(pr PathResult) {
+			rv := pr.Resolve(pr.Ret.Results[0])
+			facts := pr.Facts
+			if cv, isC := rv.(*ssa.Const); isC && cv.Value != nil && cv.Value.Kind() == constant.Bool {
+				if constant.BoolVal(cv.Value) {
+					return
+				}
+			} else {
+				facts = append(append([]Fact(nil), facts...), Fact{Cond: rv, Truth: false})
+			}
+			atoms := atomsOf(facts)
+			if contradictoryAtoms(atoms) {
+				return
+			}
+			f, nilRound := cut(av, atoms)
+			if nilRound {
+				return
+			}
+			for k := range f {
+				avFalse[k] = true
+			}
+		})
+		c.sites++
+		if !okAV {
+			c.Undecided(fname(av)+"#refuses-older-contexts", av.Pos(), "the paths of alreadyVoted could not be enumerated")
+		} else {
+			bad := ""
+			for k := range avFalse {
+				if older(k) {
+					bad = fmt.Sprintf("stored round %s, stored index %s the asked one", map[int64]string{-1: "older than", 0: "equal to", 1: "newer than"}[k[0]], map[int64]string{-1: "older than", 0: "equal to", 1: "newer than"}[k[1]])
+				}
+			}
+			c.Check(fname(av)+"#refuses-older-contexts", av.Pos(), bad == "", ifelse(bad == "", "alreadyVoted answers false only for the stored context or a newer one", "alreadyVoted can answer false for a context older than the stored one ("+bad+"): a vote for a round or index the validator has already left is signed again, and the record of the earlier vote there has been overwritten"))
+		}
+		// (b) writers of the context
+		avObj := av.Object().(*types.Func)
+		nW := 0
+		for _, fn := range w.FuncsIn(uconPkg) {
+			if fn.Blocks == nil || fn.Signature.Recv() == nil || ownerName(fn.Signature.Recv().Type()) != "VoteDB" || strings.HasSuffix(w.fileOf(fn.Pos()), "_test.go") {
+				continue
+			}
+			if fn == findVoteRestore(newDB) {
+				continue // the replay of persisted records has its own decision table (S4)
+			}
+			k := 0
+			for _, fw := range fieldWrites(fn) {
+				if isLocalAlloc(fw.Base) || !(fw.Field == roundF || fw.Field == idxF || (fw.Field == markF && fw.Kind == "store")) {
+					continue
+				}
+				nW++
+				c.sawFunc(fname(fn))
+				nPaths, bad := 0, 0
+				okEnum := pathsBetween(fn, fn.Blocks[0], fw.Instr.Block(), 4096, func(blocks []*ssa.BasicBlock, facts []Fact) {
+					atoms := atomsOf(facts)
+					if contradictoryAtoms(atoms) {
+						return
+					}
+					f, nilRound := cut(fn, atoms)
+					if nilRound {
+						nPaths++
+						return
+					}
+					// a passed alreadyVoted(…) == false on the function's own round and index
+					for _, a := range atoms {
+						if a.Kind == "true" && !a.Truth {
+							if cc, isCall := stripConv(a.X).(*ssa.Call); isCall && sameFunc(calleeObj(cc), avObj) && okAV {
+								for k := range f {
+									if !avFalse[k] {
+										delete(f, k)
+									}
+								}
+							}
+						}
+					}
+					if len(f) == 0 {
+						return
+					}
+					nPaths++
+					for k := range f {
+						if older(k) {
+							bad++
+							return
+						}
+					}
+				})
+				c.sites += nPaths
+				cons := fmt.Sprintf("%s#%s-never-moves-back-%d", fname(fn), fw.Field.Name(), k)
+				k++
+				if !okEnum {
+					c.Undecided(cons, fw.Instr.Pos(), "paths to the write could not be enumerated")
+					continue
+				}
+				c.Check(cons, fw.Instr.Pos(), bad == 0 && nPaths > 0, ifelse(bad == 0 && nPaths > 0, fmt.Sprintf("all %d paths to the write have a nil stored round or a context that is not older", nPaths), fmt.Sprintf("%d of %d paths replace the stored (round, index) — or wipe its marks — by an OLDER context: after a restart in the middle of a round the engine announces index 1 again, the marks of the later index are dropped and the validator signs index 1 a second time", bad, nPaths)))
+			}
+		}
+		if nW == 0 {
+			c.Undecided("consensus/ucon.VoteDB#context-writes", token.NoPos, "no write of VoteDB.round / roundIndex / mark found in the methods of VoteDB")
+		}
+	}
+
+}
+
+// newCtxCut returns the function that cuts the nine (r, i) sign combinations
+// down to those compatible with the path conditions of a VoteDB method
+// (comparisons of the stored round / index with the method's parameters), and
+// reports whether the path established a nil stored round.
+func newCtxCut(w *World) ctxCut {
+	roundF := w.Field(uconPkg, "VoteDB", "round")
+	idxF := w.Field(uconPkg, "VoteDB", "roundIndex")
+	full := func() map[ri]bool {
+		m := map[ri]bool{}
+		for r := int64(-1); r <= 1; r++ {
+			for i := int64(-1); i <= 1; i++ {
+				m[ri{r, i}] = true
+			}
+		}
+		return m
+	}
+	holds := func(sign int64, op token.Token, n int64) bool {
+		switch op {
+		case token.LSS:
+			return sign < n
+		case token.LEQ:
+			return sign <= n
+		case token.GTR:
+			return sign > n
+		case token.GEQ:
+			return sign >= n
+		case token.EQL:
+			return sign == n
+		}
+		return true
+	}
+	// cut: the (r, i) combinations compatible with the path conditions of fn; nilRound: the stored round is nil
+	cut := func(fn *ssa.Function, atoms []Atom) (map[ri]bool, bool) {
+		recv := ssa.Value(fn.Params[0])
+		isRecvField := func(v ssa.Value, f *types.Var) bool {
+			lf, base := loadedField(stripConv(v))
+			return lf == f && base != nil && stripConv(base) == recv
+		}
+		isParam := func(v ssa.Value) bool {
+			p, ok := stripConv(v).(*ssa.Parameter)
+			return ok && p.Parent() == fn
+		}
+		feasible := full()
+		nilRound := false
+		for _, a := range atoms {
+			if a.Kind == "isnil" && a.Truth && isRecvField(a.X, roundF) {
+				nilRound = true
+			}
+			if a.Y == nil || (a.Kind != "eq" && a.Kind != "cmp") {
+				continue
+			}
+			op := a.Op
+			if a.Kind == "eq" {
+				op = token.EQL
+			}
+			for _, pair := range [][2]ssa.Value{{a.X, a.Y}, {a.Y, a.X}} {
+				cc, isCall := stripConv(pair[0]).(*ssa.Call)
+				if !isCall || calleeObj(cc) == nil || calleeObj(cc).Name() != "Cmp" {
+					continue
+				}
+				n, isC := constInt(pair[1])
+				if !isC {
+					continue
+				}
+				r, g := callRecv(cc), callArgs(cc)[0]
+				flip := false
+				switch {
+				case isRecvField(r, roundF) && isParam(g):
+				case isRecvField(g, roundF) && isParam(r):
+					flip = true
+				default:
+					continue
+				}
+				o := op
+				if pair[0] == a.Y { // constant on the left: mirror the operator
+					o = flipCmp(op)
+				}
+				for k := range feasible {
+					sg := k[0]
+					if flip {
+						sg = -sg
+					}
+					if holds(sg, o, n) != a.Truth {
+						delete(feasible, k)
+					}
+				}
+			}
+			var flip, isIdx bool
+			switch {
+			case isRecvField(a.X, idxF) && isParam(a.Y):
+				isIdx = true
+			case isRecvField(a.Y, idxF) && isParam(a.X):
+				isIdx, flip = true, true
+			}
+			if isIdx {
+				for k := range feasible {
+					sg := k[1]
+					if flip {
+						sg = -sg
+					}
+					if holds(sg, op, 0) != a.Truth {
+						delete(feasible, k)
+					}
+				}
+			}
+		}
+		return feasible, nilRound
+	}
+	return cut
 }
